@@ -779,6 +779,11 @@ fn sweep_layout(a: &Args) -> ! {
         for d in [0u128, 1, 2, 3, 16, 17, 1 << 20, (1 << 58) - 1, 1 << 58, 1 << 61] {
             lens.push(i64::MAX as u128 - d);
         }
+        // domains with more points than an i64 can count (2^63 .. 2^64): the whole type, half the type and a bit, ...
+        for d in [0u128, 1, 2, 3, 17, 1 << 20, (1 << 58) - 1, 1 << 58, (1 << 58) + 1, 1 << 61, (1 << 62) - 1, 1 << 62, (1 << 62) + 1] {
+            lens.push((1u128 << 63) + d);
+            lens.push((1u128 << 64) - d);
+        }
         lens.sort();
         lens.dedup();
         for &len in &lens {
@@ -798,7 +803,7 @@ fn sweep_layout(a: &Args) -> ! {
             }
             // i64: round and odd offsets, domains starting at the type minimum and ending at the type maximum
             let top = (i64::MAX as i128 - (len as i128 - 1)) as i64;
-            for lo in [0i64, 1, -3, -(1i64 << 40), i64::MIN / 4, i64::MIN, 12345678901, -(1i64 << 58) + 5, top, top - 1, top / 2 + 1] {
+            for lo in [0i64, 1, -3, -(1i64 << 40), i64::MIN / 4, i64::MIN, i64::MIN + 1, i64::MIN / 2 - 1, 12345678901, -(1i64 << 58) + 5, top, top.saturating_sub(1), top / 2 + 1] {
                 if lo as i128 + len as i128 - 1 <= i64::MAX as i128 {
                     cases.push((2, lo, len));
                 }
